@@ -1119,6 +1119,9 @@ func (x *Exec) matchEvent(sc *specCtx, f ast.Expr, ev *Event) Term {
 					if (fv.Fn == nil) != (cv.Fn == nil) {
 						return tFalse // a statically known callee vs. a call through a function value
 					}
+					if fv.Fn == nil && cv.Fn == nil && ev.Name != f.Name {
+						return tFalse // calls(f) counts the calls made through the variable f (origin-based)
+					}
 					return eq(cv.ID, fv.ID)
 				}
 				return tFalse
